@@ -166,9 +166,11 @@ class MultiCategoricalTensorMapper(TensorMapper):
         *,
         device: torch.device | None = None,
     ) -> MultiNestedTensor:
-        if ser.dtype != 'object':
+        if ser.dtype != 'object' and not pd.api.types.is_string_dtype(ser):
             raise ValueError('Multi-categorical types expect string as input')
         values = []
+        # Rows are identified by position, not by their index labels.
+        ser = ser.reset_index(drop=True)
         original_index = ser.index
         ser = ser.apply(lambda row: MultiCategoricalTensorMapper.split_by_sep(
             row, sep=self.sep))
